@@ -42,9 +42,10 @@ fn c19_poll_period_and_demand() {
 
 // @harness c19_pollmap_next
 // @props C19
-// @tier quick
-// @timeout 1800
-// @mem 6
+// @tier thorough
+// @class attempt
+// @timeout 3600
+// @mem 14
 // @units PollMap::{new, add, next, remove}, Poll::{is_ready, next}, Smallest::observe
 // @bounds two registered polls whose deadlines are ARBITRARY instants (or absent), queried at an arbitrary instant: Now <=> one of them is due, and the poll returned is a due one; otherwise NotBefore(t) with t = the EARLIEST deadline and t > now (the caller's sleep cannot return immediately: no spinning); no deadline at all / no polls: None.  (The map is built with fixed periods so that its tree shape is concrete; the deadlines are then overwritten with symbolic values.)
 // @stubs tokio::time::Instant::now -> harness clock
@@ -89,9 +90,10 @@ fn c19_pollmap_next() {
 
 // @harness c19_pollmap_complete_and_remove
 // @props C19
-// @tier quick
-// @timeout 1800
-// @mem 6
+// @tier thorough
+// @class attempt
+// @timeout 3600
+// @mem 14
 // @units PollMap::{add, complete, demand, remove, next}, Poll::reset_next
 // @bounds one registered poll with an arbitrary period (1 ms..1 h): completing it at an arbitrary instant moves its deadline to completion + period; demanding it makes it due at once; removing it leaves nothing to schedule
 // @stubs tokio::time::Instant::now -> harness clock
@@ -124,4 +126,28 @@ fn c19_pollmap_complete_and_remove() {
     kani::cover!(q >= t + period);
     kani::cover!(q < t + period);
     std::mem::forget(m);
+}
+
+// @harness c19_smallest_deadline
+// @props C19
+// @tier quick
+// @timeout 300
+// @units util::Smallest::{new, observe, value} (the reduction PollMap::next uses to pick the deadline to sleep until)
+// @bounds three arbitrary instants observed in any order: the result is their minimum (so the master sleeps until the EARLIEST deadline, never a later one); nothing observed => none
+#[kani::proof]
+#[kani::unwind(4)]
+fn c19_smallest_deadline() {
+    let mut s = Smallest::<Instant>::new();
+    assert!(s.value().is_none());
+    let a = any_instant();
+    let b = any_instant();
+    let c = any_instant();
+    s.observe(a);
+    assert!(s.value() == Some(a));
+    s.observe(b);
+    s.observe(c);
+    let m = if a <= b && a <= c { a } else if b <= c { b } else { c };
+    assert!(s.value() == Some(m));
+    kani::cover!(c < a && c < b);
+    kani::cover!(a < b && a < c);
 }
